@@ -1,0 +1,17 @@
+//go:build verif
+
+// Contracts for the tvc verifier (/verif). Comment-only: with the `verif` tag off this file does not exist,
+// with it on it adds no code. Syntax: /verif/DESIGN.md appendix A.
+
+package common
+
+//@ for C19
+
+//@ func NewNodeInfo
+//@   requires node != nil
+//@   panics
+//@   modifies nothing
+//@   ensures result1 == nil ==> result0 != nil
+//@   ensures result1 == nil ==> result0.InstanceType == node.Labels["node.kubernetes.io/instance-type"] && result0.InstanceType != ""
+//@   ensures result1 == nil ==> result0.RegionID == node.Labels["topology.kubernetes.io/region"] && result0.RegionID != ""
+//@   ensures result1 == nil ==> result0.InstanceID != ""
